@@ -454,11 +454,19 @@ def fixed_cases(ctx: Ctx):
     yield {"spec": spec4, "ops": ops}
     yield {"spec": dict(spec1, want=[]), "ops": ops}
     yield {"spec": dict(spec1, want=["HardSingle", "ExpertDrums"]), "ops": ops}
+    # every instrument family next to each legacy [Song] value (reads of ABSENT instruments / difficulties are
+    # reads too: they raise and change nothing)
+    body = [[0, "N", 0, 0], [48, "N", 1, 10], [96, "N", 7, 0], [96, "S", 2, 20]]
+    for p2, headers in (("rhythm", ["ExpertDoubleBass", "HardDoubleBass", "ExpertDoubleGuitar", "EasyGHLGuitar"]),
+                        ("bass", ["ExpertDoubleRhythm", "MediumDrums", "ExpertKeyboard", "HardGHLBass"]),
+                        ("rhythm", ["ExpertDoubleRhythm", "ExpertDoubleBass", "ExpertGHLCoop", "ExpertGHLRhythm"])):
+        song = [["Name", '"n"'], ["Player2", p2], ["Offset", "5"], ["Resolution", "192"], ["Difficulty", "3"]]
+        yield {"spec": dict(spec1, song=song, tracks={h: list(body) for h in headers}), "ops": ops}
     yield {"spec": spec3, "ops": ops + [["nps", 0, 3, "none", 0, 0], ["nps", 0, 3, "tick_tick", 0, 400],
                                         ["nps", 0, 3, "time_time", 0, 5000000]]}
 
 
 PARTS: list[Part] = [
-    enum_part("fixed", fixed_cases, check_history, {"quick": 1, "thorough": 1}),
+    enum_part("fixed", fixed_cases, check_history, {"quick": 2, "thorough": 2}),
     custom_part("machine", drive_machine, check_history, {"quick": 8, "thorough": 16}),
 ]
